@@ -175,3 +175,44 @@ func HarnessRevokedLater(k int) {
 	vh.Assert("C09/revoked-token-gets-structured-401-on-the-next-request", vh.And(again.Status == 401, again.Documents == 1, !vh.StrEq(again.ErrCode, ""), !vh.StrEq(again.ErrMsg, "")))
 	vh.Reach("end")
 }
+
+// HarnessNearMissTokens: strings are atoms in the encoding (equal or not), so the byte-level
+// near misses of the two valid credentials are taken from a menu of concrete strings instead:
+// proper prefixes (including the empty string), extensions, case variants, SQL wildcards and the
+// concatenation of the two. Every API route; only the exact admin token and the exact stored
+// token are let through (the stored one not on the admin-only routes).
+func HarnessNearMissTokens() {
+	const admin, stored = "Adm1n-token_9z", "Stored-tok_7q"
+	db := vhdb.NewDB()
+	vhdb.InsertTokenRow(db, dto.DbToken{Token: stored, CreatedAt: vh.NondetTime("created")})
+	app := happ.New(db, &config.HTTPConfig{UseAuth: true, AuthToken: admin}, 3, 6)
+	var api []vhgin.Route
+	for _, r := range vhgin.Routes(app.Engine) {
+		if strings.HasPrefix(r.Path, apiPrefix+"/") {
+			api = append(api, r)
+		}
+	}
+	vh.Assert("C09/api-routes-registered", len(api) >= 15)
+	r := api[vh.Choose(len(api))]
+	vh.Observe("route", r.Method+" "+r.Path)
+	cands := []string{admin, stored, "", "A", "Adm1n-token_9", "Adm1n-token_9zz", "adm1n-token_9z", "ADM1N-TOKEN_9Z", "dm1n-token_9z",
+		"Stored-tok_7", "Stored-tok_7qq", "stored-tok_7q", "tored-tok_7q", admin + stored, "%", "_", "Stored-tok_7_", "Adm1n-token_9%"}
+	c := vh.Choose(len(cands))
+	cand := cands[c]
+	vh.Observe("presented", cand)
+	req := vhgin.Req{Params: paramsOf(r.Path), Headers: map[string]string{"Authorization": "Bearer " + cand}, BindFails: true}
+	before := vhdb.WriteCount(db)
+
+	resp := vhgin.Serve(app.Engine, r.Method, r.Path, req)
+
+	adminRoute := (r.Method == "POST" && r.Path == apiPrefix+"/access") || (r.Method == "DELETE" && r.Path == apiPrefix+"/access/:token")
+	allowed := c == 0 || (c == 1 && !adminRoute)
+	vh.Observe("status", resp.Status)
+	if allowed {
+		vh.Assert("C09/authenticated-is-let-through", resp.Status != 401)
+	} else {
+		vh.Assert("C09/unauthenticated-gets-structured-401-before-any-handler-logic", vh.And(resp.Status == 401, resp.Documents == 1,
+			!vh.StrEq(resp.ErrCode, ""), !vh.StrEq(resp.ErrMsg, ""), resp.Aborted || !vh.Symbolic(), vhdb.WriteCount(db) == before))
+	}
+	vh.Reach("end")
+}
